@@ -11,6 +11,7 @@ import NutsProofs.Lemmas.C10Obs
 import NutsProofs.Lemmas.C10Shelves
 import NutsProofs.Lemmas.C10Backend
 import NutsProofs.Lemmas.C10Docs
+import NutsProofs.Lemmas.C10Read
 
 namespace Nuts.C10.Props
 open Nuts.C10
@@ -852,6 +853,43 @@ example : (match dAddAll cfg0 ({}, {}) [(evB', 2), (evA', 0), (evC', 0), (evB', 
 example : (match statsStep {} false true 0 with
     | .ok st => st.cc == some [0, 0, 0, 1] && st.dc == some [0, 0, 0, 1] &&
         (match statsStep st true false 3 with | .ok st2 => st2.cc == some [0, 0, 0, 0] && st2.dc == some [0, 0, 0, 1] | _ => false)
+    | _ => false) = true := by decide
+
+/-! ### read transactions on a failing storage layer (NutsModel/C10/ReadPath.lean) -/
+
+/-- **A storage error inside `Resolve`'s read transaction cannot change an answer**, end to end: for every arrival
+    sequence, every DID, every resolve metadata and every position `k` of the failing shelf Get, `Resolve` on the literal
+    shelves either returns the storage error or answers exactly what the (order independent) chain-level `resolve`
+    answers — never another version, never `not-found` / `deactivated` in place of an existing answer. A failure of the
+    first Get (latestV2) is always reported; without a failure (`k = 0`) the answer is `resolve`'s. -/
+theorem read_fault_never_changes_an_answer (cfg : Cfg) (l : List Event) (s : Store) (h : addAll cfg {} l = .ok s)
+    (id : String) :
+    ∃ st, sAddAll cfg {} (l.filter (fun e => e.doc.id = id)) = .ok st ∧
+      ∀ rm, (∀ k, sResolveF st rm k = .err "db" ∨ sResolveF st rm k = resolve s id rm) ∧
+        sResolveF st rm 0 = resolve s id rm ∧ sResolveF st rm 1 = .err "db" := by
+  obtain ⟨st, h1, _, h3⟩ := shelf_resolve_eq_resolve cfg l s h id
+  refine ⟨st, h1, fun rm => ⟨fun k => ?_, ?_, sResolveF_one st rm⟩⟩
+  · rw [← h3 rm]; exact sResolveF_or st rm k
+  · rw [← h3 rm]; exact sResolveF_zero st rm
+
+/-- the classification the harness is compared with: a call performing `gets` Gets reports exactly the failures at
+    positions 1..gets -/
+theorem fault_class_db_iff (gets k : Nat) : faultClass gets k = "db" ↔ (1 ≤ k ∧ k ≤ gets) := by
+  unfold faultClass
+  by_cases h : 1 ≤ k ∧ k ≤ gets
+  · simp [h]
+  · simp only [h, if_false]
+    constructor
+    · intro x; exact absurd x (by decide)
+    · intro x; exact x.elim
+
+/-! non-vacuity: on the fork {create, B, A} resolving at a time before the fork walks 3 versions: Gets 1..5 (latest, three
+    metadata records, one document) are reported, a failure armed at Get 6 never fires -/
+example : (match sAddAll cfg0 {} [evB, evA, evCreate] with
+    | .ok st =>
+      (List.range 7).map (fun k => match sResolveF st (some { time := some 15 }) k with
+        | .err e => e | .ok (_, m) => toString m.version | .panic e => e) ==
+        ["0", "db", "db", "db", "db", "db", "0"]
     | _ => false) = true := by decide
 
 end Nuts.C10.Props
